@@ -79,6 +79,11 @@ impl Engine for HbE2e {
                     // server keeps sending: when it resumes, one poll batch holds the socket AND the rx timer
                     peer.park_next_write(u64::from(sh.min(ch).max(1)) * 2300);
                 }
+                if *mode == "stall-pass" {
+                    // ... or the thread stalls at the very end of a pass (in the re-registration that follows
+                    // its first heartbeat), so that the next poll batch is the first thing it sees afterwards
+                    peer.park_next_rereg(u64::from(sh.min(ch).max(1)) * 2300);
+                }
                 let deadline = opened_at + Duration::from_millis(if *mode == "slowclose" { 0 } else { observe });
                 let mut death: Option<Instant> = None;
                 let mut next_beat = opened_at;
@@ -93,10 +98,11 @@ impl Engine for HbE2e {
                         last_server_send = Instant::now();
                         next_beat += Duration::from_millis((u64::from(sh.min(ch).max(1)) * 400) as u64);
                     }
-                    if (*mode == "chatty" || *mode == "stall-io") && Instant::now() >= next_beat {
+                    if (*mode == "chatty" || *mode == "stall-io" || *mode == "stall-pass") && Instant::now() >= next_beat {
                         peer.push(&broker::heartbeat());
                         last_server_send = Instant::now();
-                        next_beat += Duration::from_millis((u64::from(sh.min(ch).max(1)) * 900) as u64);
+                        // (stall-pass: 0.8 h, so that a send precedes the rx timer's first expiry at 2 h by 0.4 h)
+                        next_beat += Duration::from_millis((u64::from(sh.min(ch).max(1)) * if *mode == "stall-pass" { 800 } else { 900 }) as u64);
                     }
                     if peer.stream_dropped() {
                         death = Some(Instant::now());
